@@ -231,7 +231,7 @@ def plan(tier, seed):
         tmpl.regular_graphs(n, k)   # generated once, cached under .work for the shard processes
     units.append(Sel(name="regular_cages", func="vp.props.C02:cages",
                      params={"f": (0, 3), "i": (0, 16), "j": (0, 16), "blk": (0, 8 if tier == "quick" else 40), "cls": (0, 2)},
-                     pre=["f == 2 or (i < 6 and j < 6)", "cls == 0 or (blk < 1 and f < 2)"], shard_by=[], timeout=1500, nontrivial="i != j"))
+                     pre=["f == 2 or (i < 6 and j < 6)", "cls == 0 or (blk < 1 and f < 2)"] + (["f < 2 or blk < 3"] if tier == "quick" else ["f < 2 or blk < 16"]), shard_by=[], timeout=1500, nontrivial="i != j"))
     names = ["star4", "lonepair", "dbond", "ring4", "sn2"] + (["twocentre", "star5", "star6"] if tier == "thorough" else [])
     for (n, c, p, pr) in eqfam.template_units(names):
         params = {"t": (C01.TNAMES.index(n), C01.TNAMES.index(n) + 1), "cls": (gl.CLS_NAMES.index(c), gl.CLS_NAMES.index(c) + 1)}
